@@ -103,6 +103,12 @@ class Template(Node):
         for node in code.filter_text(recursive=False):
             if char in node:
                 code.replace(node, node.replace(char, replacement), False)
+        # Headings and external links have no brackets of their own that
+        # would protect the text inside them:
+        for node in code.nodes:
+            if isinstance(node, (ExternalLink, Heading)):
+                for child in node.__children__():
+                    Template._surface_escape(child, char)
 
     @staticmethod
     def _select_theory(theories):
